@@ -108,13 +108,13 @@ def emit_words(c, words, inner_lemmas, arms):
     json.dump(words, open(os.path.join(T, f"{c}_words.json"), "w", encoding="utf-8"), ensure_ascii=False)
 
 
-def emit_model(c, arms, doc, extra_params=""):
+def emit_model(c, arms, doc, extra_params="", ret="ApRes", default="err_res(o, Error::NaN)"):
     out = [f"/// {doc}",
-           f"#[verifier::opaque] pub open spec fn {c}_status(l: Seq<char>, o: DsView{extra_params}) -> ApRes {{"]
+           f"#[verifier::opaque] pub open spec fn {c}_status(l: Seq<char>, o: DsView{extra_params}) -> {ret} {{"]
     for k, (ws, g, act) in enumerate(arms):
         cnd = cond(ws) + (f" && ({g})" if g else "")
         out.append(f"    {'if' if k == 0 else 'else if'} {cnd} {{ {act} }}")
-    out.append("    else { err_res(o, Error::NaN) }")
+    out.append(f"    else {{ {default} }}")
     out.append("}")
     open(os.path.join(T, f"{c}_model.inc"), "w", encoding="utf-8").write("\n".join(out) + "\n")
 
@@ -328,7 +328,90 @@ def spanish():
     print(c + ":", len(arms), "arms,", len(rows), "rows,", len(allwords), "words")
 
 
-LANGS = {"en": english, "es": spanish}
+# ------------------------------------------------------------------ French
+def french():
+    c = "fr"
+    arms = load_arms(c)
+    emit_model(c, arms, "arm-level model of French::apply for a word without hyphen: (outcome, words blocked for the next word) (layer L3a)",
+               extra_params=", blocked: u64", ret="(ApRes, u64)", default="(err_res(o, Error::NaN), 0u64)")
+    rows = []
+
+    def add(w, kind, digits, expect, desc):
+        rows.append({"word": w, "kind": kind, "digits": digits, "expect": expect, "desc": desc})
+    # cardinals and their -ième ordinals
+    units = [("un", "unième", "1"), ("deux", "deuxième", "2"), ("trois", "troisième", "3"), ("quatre", "quatrième", "4"), ("cinq", "cinquième", "5"),
+             ("six", "sixième", "6"), ("sept", "septième", "7"), ("huit", "huitième", "8"), ("neuf", "neuvième", "9")]
+    blockbit = {"1": 1, "2": 2, "3": 4, "4": 8, "5": 16, "6": 32}
+    add("zéro", "put", "0", "0", "put 0")
+    for cw, ow, d in units:
+        add(cw, "unit", d, d, f"unit {d} (refused right after a ten that forms a compound with it)")
+        add(ow, "unit", d, d + "ème", f"unit {d}, ordinal")
+        add(ow + "s", "unit", d, d + "èmes", f"unit {d}, plural ordinal")
+    add("premier", "first", "1", "1er", "1, ordinal (only as a number of its own)")
+    add("première", "first", "1", "1ère", "1, ordinal feminine")
+    add("premiers", "first", "1", "1ers", "1, ordinal plural")
+    add("premières", "first", "1", "1ères", "1, ordinal feminine plural")
+    teens = [("dix", "dixième", "10"), ("onze", "onzième", "11"), ("douze", "douzième", "12"), ("treize", "treizième", "13"), ("quatorze", "quatorzième", "14"),
+             ("quinze", "quinzième", "15"), ("seize", "seizième", "16")]
+    for cw, ow, d in teens:
+        add(cw, "teen", d, d, f"{d}; after soixante / quatre-vingt it makes 7x / 9x")
+        add(ow, "teen", d, d + "ème", f"{d}, ordinal")
+    tens = [("trente", "trentième", "30"), ("quarante", "quarantième", "40"), ("cinquante", "cinquantième", "50"), ("soixante", "soixantième", "60"),
+            ("septante", "septantième", "70"), ("huitante", "huitantième", "80"), ("octante", "octantième", "80"), ("nonante", "nonantième", "90")]
+    for cw, ow, d in tens:
+        add(cw, "ten", d, d, f"ten {d}")
+        add(ow, "ten", d, d + "ème", f"ten {d}, ordinal")
+    add("vingt", "vingt", "20", "20", "20, or 80 after quatre")
+    add("vingts", "vingt", "20", "20", "20 (plural as in quatre-vingts)")
+    add("vingtième", "vingt", "20", "20ème", "20, ordinal")
+    for cw, k, exp in [("cent", "cent", "100"), ("cents", "cent", "100"), ("centième", "cent", "100ème"), ("mille", "mille", "1000"), ("mil", "mille", "1000"),
+                       ("millième", "mille", "1000ème"), ("million", "million", "1000000"), ("millions", "million", "1000000"),
+                       ("millionième", "million", "1000000ème"), ("milliard", "milliard", "1000000000"), ("milliards", "milliard", "1000000000"),
+                       ("milliardième", "milliard", "1000000000ème")]:
+        add(cw, k, "", exp, k)
+
+    def lemma_of(w):
+        return w.rstrip("s") if (w.endswith("s") and w != "trois") else w
+
+    def marker_kind(w):
+        for k, sfx in [(1, "ème"), (2, "èmes"), (3, "ier"), (4, "iers"), (5, "ière"), (6, "ières")]:
+            if w.endswith(sfx):
+                return k
+        return 0
+
+    def word_facts(r):
+        w = r["word"]
+        l = lemma_of(w)
+        k = marker_kind(w)
+        ens = f"fr_lemma({W(w)}) == {W(l)}, fr_marker_kind({W(w)}) == {k}"
+        asserts = [f"assert(fr_lemma({W(w)}) =~= {W(l)}) by(compute_only);", f"assert(fr_marker_kind({W(w)}) == {k}) by(compute_only);"]
+        return ens, asserts, l
+
+    def row_stmt(r):
+        k = marker_kind(r["word"])
+        kind = r["kind"]
+        if kind in ("put", "ten"):
+            return f"fr_row_put({digs(r['digits'])}, {k}, {1 if kind == 'ten' else 0}, o, fr_model({W(r['word'])}, o))"
+        if kind == "unit":
+            bit = blockbit.get(r["digits"], 0)
+            return f"fr_row_unit({digs(r['digits'])}, {k}, {bit}, o, fr_model({W(r['word'])}, o))"
+        if kind == "first":
+            return f"fr_row_first({k}, o, fr_model({W(r['word'])}, o))"
+        if kind == "teen":
+            return f"fr_row_teen({ord(r['digits'][1])}u8, {k}, {63 if r['digits'] == '10' else 0}, o, fr_model({W(r['word'])}, o))"
+        if kind == "vingt":
+            return f"fr_row_vingt({k}, o, fr_model({W(r['word'])}, o))"
+        return f"fr_row_scale({ {'cent': 2, 'mille': 3, 'million': 6, 'milliard': 9}[kind] }, {k}, o, fr_model({W(r['word'])}, o))"
+    extra = ["trois", "ème", "èmes", "ier", "iers", "ière", "ières", "er", "ers", "ère", "ères", "virgule", "neuf", "un", "le", "du", "l'", "numéro", "-", ""]
+    allwords = set(w for ws, _, _ in arms for w in ws) | set(r["word"] for r in rows) | set(lemma_of(r["word"]) for r in rows) | set(extra)
+    ARMS_CURRENT[:] = arms
+    inner = emit_rows(c, rows, word_facts, row_stmt)
+    emit_words(c, allwords, inner, arms)
+    json.dump(rows, open(os.path.join(T, f"{c}_rows.json"), "w", encoding="utf-8"), ensure_ascii=False)
+    print(c + ":", len(arms), "arms,", len(rows), "rows,", len(allwords), "words")
+
+
+LANGS = {"en": english, "es": spanish, "fr": french}
 
 if __name__ == "__main__":
     emit_wcode()
